@@ -965,6 +965,40 @@ impl Gen {
             self.pending_dump = true;
             return Some(Ev::Tick(d));
         }
+        if fl == "ttl" && self.rng.chance(1, 12) {
+            // a plain store of the very bytes and flags the live item already holds is a store
+            // like any other: the item's life starts again with the expiration given now
+            self.count("store_of_identical_value_with_another_expiration");
+            self.scripted += 1;
+            let key = format!("rs{}", self.scripted).into_bytes();
+            let v = self.rng.bytes(3);
+            let f = self.rng.below(3) as u32;
+            let (t1, wait, t2, later) = *self.rng.pick(&[(10u32, 6u64, 10u32, 5u64), (5, 1, 0, 9), (0, 1, 5, 5), (4, 2, 4, 3)]);
+            self.queue.push_back(Ev::Tick(wait));
+            self.queue.push_back(Ev::Chunk(self.conn, gen::set_like(op::SET, &key, &v, f, t2).bytes()));
+            self.queue.push_back(Ev::Dump);
+            self.queue.push_back(Ev::Tick(later));
+            self.queue.push_back(Ev::Chunk(self.conn, Req::new(op::GET).key(&key).bytes()));
+            self.pending_dump = true;
+            return Some(Ev::Chunk(self.conn, gen::set_like(op::SET, &key, &v, f, t1).bytes()));
+        }
+        if fl == "flush" && self.rng.chance(1, 20) {
+            // two delayed flushes around a store that leaves the number of bytes stored as it
+            // was (an overwrite of equal size): the second flush covers it like any other
+            self.count("two_delayed_flushes_around_an_equal_size_overwrite");
+            self.scripted += 1;
+            let key = format!("fo{}", self.scripted).into_bytes();
+            let d1 = 1 + self.rng.below(4) as u32;
+            let d2 = d1 + self.rng.below(3) as u32;
+            self.queue.push_back(Ev::Chunk(self.conn, gen::flush(op::FLUSH, Some(d1)).bytes()));
+            self.queue.push_back(Ev::Chunk(self.conn, gen::set_like(op::SET, &key, b"bbbb", 2, 0).bytes()));
+            self.queue.push_back(Ev::Dump);
+            self.queue.push_back(Ev::Chunk(self.conn, gen::flush(op::FLUSH, Some(d2)).bytes()));
+            self.queue.push_back(Ev::Tick(d2 as u64));
+            self.queue.push_back(Ev::Chunk(self.conn, Req::new(op::GET).key(&key).bytes()));
+            self.pending_dump = true;
+            return Some(Ev::Chunk(self.conn, gen::set_like(op::SET, &key, b"aaaa", 1, 0).bytes()));
+        }
         if fl == "flush" && self.rng.chance(1, 10) {
             // a scripted history: a delayed flush, then a conditional store to a key that does
             // not exist (such a store takes no value from the CAS counter), then a second
